@@ -254,7 +254,7 @@ func transfer(c *Ctx, im *Impl, cf *CaseFile, label string, a, b io.ReadWriteClo
 	go func() { defer wg.Done(); gotUp = drain(b, keep) }()
 	go func() { defer wg.Done(); gotDown = drain(a, keep) }()
 	if midway != nil {
-		go func() { time.Sleep(150 * time.Millisecond); midway() }()
+		go func() { time.Sleep(40 * time.Millisecond); midway() }()
 	}
 	done := make(chan struct{})
 	go func() { wg.Wait(); close(done) }()
@@ -410,9 +410,11 @@ func meshCases(c *Ctx, im *Impl, cf *CaseFile) {
 				continue
 			}
 			var midway func()
+			var cutAt time.Time
+			var cutMu sync.Mutex
 			if pl.t.cutLink >= 0 {
 				lk := w.links[pl.t.cutLink]
-				midway = func() { lk.Cut() }
+				midway = func() { lk.Cut(); cutMu.Lock(); cutAt = time.Now(); cutMu.Unlock() }
 			}
 			limit := 60 * time.Second
 			if c.Thorough() {
@@ -420,10 +422,16 @@ func meshCases(c *Ctx, im *Impl, cf *CaseFile) {
 			}
 			transfer(c, im, cf, label, conn, ac, r.Bytes(sz[0]), r.Bytes(sz[1]), limit, pl.p.drop+pl.p.dup > 0 || pl.t.cutLink >= 0, midway)
 			if pl.t.cutLink >= 0 {
-				rt := w.nodes[0].Status().RoutingTable
-				im.Hist("reroute:next-hop-after-cut=" + rt[w.names[pl.t.n-1]])
-				if rt[w.names[pl.t.n-1]] != w.names[2] {
-					im.Violate(fmt.Sprintf("%s: after the cut the route to %s goes via %q", label, w.names[pl.t.n-1], rt[w.names[pl.t.n-1]]), "reroute-did-not-happen", label)
+				ended := time.Now()
+				dst := w.names[pl.t.n-1]
+				// the cut may come after a fast transfer has ended: then this was no re-routing sample
+				WaitFor(3*time.Second, func() bool { cutMu.Lock(); defer cutMu.Unlock(); return !cutAt.IsZero() })
+				cutMu.Lock()
+				during := !cutAt.IsZero() && cutAt.Before(ended)
+				cutMu.Unlock()
+				im.Hist(fmt.Sprintf("reroute:link-cut-during-transfer=%v", during))
+				if !WaitFor(5*time.Second, func() bool { return w.nodes[0].Status().RoutingTable[dst] == w.names[2] }) {
+					im.Violate(fmt.Sprintf("%s: 5s after the cut the route to %s still goes via %q", label, dst, w.nodes[0].Status().RoutingTable[dst]), "reroute-did-not-happen", label)
 				}
 			}
 			_ = conn.CloseConnection()
